@@ -1183,7 +1183,7 @@ def new_stats():
 class C14:
     id = PID
     # SrcTieLogic: the scalar decision logic regenerated from the C++ source by tools/gen_logic.py is the model (C14All = C14 + SrcTieLogic)
-    props_files = ['SmoothProps/C14.lean', 'SmoothProps/SrcTieLogic.lean']
+    props_files = ['SmoothProps/C14.lean', 'SmoothProps/SrcTieLogic.lean', 'SmoothProps/SrcTieFitSpec.lean']
     props_module = 'SmoothProps.C14All'
     lean_targets = ['SmoothProps.C14All']
     rule = ('inputs generated from the seed: fit_spline_1d per spec (PiecewiseLinear, FixedDerCubic<1|2,1|2>, MinDerivative<5|6,3,3>) '
